@@ -425,6 +425,33 @@ fn initial(rep: &Reporter) {
                         }
                     }
                 }
+                // every axis with its own bounds (same lower bound and different upper bounds, nested and disjoint
+                // intervals): each coordinate inside the bounds of ITS axis
+                if dim >= 2 {
+                    let families: [&[(f64, f64)]; 4] = [
+                        &[(0.0, 100.0), (0.0, 1.0), (0.0, 0.25), (0.0, 7.0), (0.0, 1e-6), (0.0, 3.0)],
+                        &[(-1.0, 1.0), (-0.5, 0.5), (5.0, 6.0), (-1e3, -999.0), (0.0, 1e9), (2.0, 2.5)],
+                        &[(1.0, 2.0), (1.0, 1.5), (1.0, 1.25), (1.0, 1.125), (1.0, 9.0), (1.0, 1.0625)],
+                        &[(-10.0, 0.0), (-1.0, 0.0), (-0.1, 0.0), (-100.0, 0.0), (-2.0, 0.0), (-0.5, 0.0)],
+                    ];
+                    for fam in families {
+                        rep.case();
+                        rep.nontrivial(hash_of(&("RandomSpread-heterogeneous", n, dim, s, fam[0].0.to_bits())));
+                        let domains: Vec<(f64, f64)> = fam[..dim].to_vec();
+                        let problem = Real::with_domains(domains.clone(), RealFn::Sphere);
+                        let mut st = State::<Real>::new();
+                        st.insert(Populations::<Real>::new());
+                        st.insert(Random::new(seed));
+                        let r = catch(|| initialization::RandomSpread::new::<Real, f64>(n).execute(&problem, &mut st).map_err(|e| e.to_string()));
+                        let ok = matches!(r, Ok(Ok(())))
+                            && st.populations().current().len() == n as usize
+                            && st.populations().current().iter().all(|i| i.solution().len() == dim && i.solution().iter().zip(&domains).all(|(x, d)| *x >= d.0 && *x < d.1));
+                        if !ok {
+                            let bad: Option<Vec<f64>> = st.populations().get_current().and_then(|c| c.iter().find(|i| i.solution().iter().zip(&domains).any(|(x, d)| !(*x >= d.0 && *x < d.1))).map(|i| i.solution().clone()));
+                            rep.violation("RandomSpread:coordinate-outside-the-bounds-of-its-own-axis", json!({"requested": n, "domains": domains, "result": format!("{r:?}"), "offending_solution": bad}));
+                        }
+                    }
+                }
                 // inside a scope that brings its own population stack (shadowing the caller's): the new population
                 // belongs to the innermost stack, the caller's is not touched
                 macro_rules! scoped {
